@@ -53,10 +53,11 @@ fn(PD + 'process', DT, serves=['C18', 'C05'], extra_env=ENV,
    requires=[('invariant', PD_OK), ('size', 'sig.len <= 1000000000')],
    throws='tmod(sig.len, _corr_flt._n) != 0',
    ensures=[('invariant', PD_OK),
-            ('first_crossing', 'exists_w(lambda CR: And('
+            ('local:first_crossing', 'exists_w(lambda CR: And('
                                'Implies(result.has, And(0 <= result.val.offset, result.val.offset < sig.len, CR[result.val.offset] > _threshold, '
                                'forall(lambda j: Implies(And(0 <= j, j < result.val.offset), Not(CR[j] > _threshold))))), '
                                'Implies(Not(result.has), forall(lambda j: Implies(And(0 <= j, j < sig.len), Not(CR[j] > _threshold))))), data(corr))'),
+            ('offset_in_frame', 'Implies(result.has, And(0 <= result.val.offset, result.val.offset < sig.len))'),
             ('aligned_preamble', 'Implies(result.has, And(result.val.preamble.len == _delay._size, '
                                  'same(result.val.preamble[_delay._size - 1], sig[result.val.offset])))')],
    loops={1: {'inv': [('state', 'And(%s, corr.len == sig.len, _threshold == old._threshold)' % member(CD_OK, '_delay')),
